@@ -183,6 +183,8 @@ func addTarget(graph *core.BuildGraph, m targetMap, target *core.BuildTarget) {
 	for _, dep := range target.Dependencies() {
 		addTarget(graph, m, dep)
 	}
+	// A sub-target only exists as long as the rule that generates it does.
+	addTarget(graph, m, target.Parent(graph))
 	if target.Subrepo != nil && target.Subrepo.Target != nil {
 		addTarget(graph, m, target.Subrepo.Target)
 	}
